@@ -74,6 +74,18 @@ Theorem C01_unbroadcast_is_adjoint_of_broadcasting :
 Proof. exact unbroadcast_adjoint. Qed.
 Print Assumptions C01_unbroadcast_is_adjoint_of_broadcasting.
 
+(* reductions: np.sum / np.mean over any set of axes is a chain of the elementary sums, and the registered
+   rule (repeat_to_match_shape: reshape to the keepdims shape and broadcast) is its adjoint, in the input's space *)
+Theorem C01_sum_rule_is_adjoint :
+  forall (K : Type) (k0 k1 : K) (kadd kmul ksub : K -> K -> K) (kopp : K -> K),
+    ring_theory k0 k1 kadd kmul ksub kopp eq ->
+    forall ss sz x g,
+      chained sz ss -> length x = sz -> length g = final_size sz ss ->
+      dot K k0 kadd kmul g (unbroadcast_steps K k0 kadd ss x) = dot K k0 kadd kmul (broadcast_steps K ss g) x
+      /\ length (broadcast_steps K ss g) = length x.
+Proof. exact sum_rule_adjoint. Qed.
+Print Assumptions C01_sum_rule_is_adjoint.
+
 Theorem C01_maximum_generalised_gradient :
   (forall x y, y < x ->
      is_derive (fun t => Rmax t y) x (vjp_maximum_0 (Rmax x y) x y 1)
